@@ -103,3 +103,72 @@ pub fn c12_context_fresh_and_clock_free() {
     std::mem::forget(ctl);
     std::mem::forget(game);
 }
+
+// ---------------------------------------------------------------------------------------------
+// command level: the real `Uci::execute(ucinewgame)` from an arbitrary session state
+// ---------------------------------------------------------------------------------------------
+use crate::chess::game::Game;
+use crate::engine::uci::commands::UciCommand;
+use crate::engine::uci::verif_access as ua;
+
+/// see c17.rs: Kani 0.68 cannot compile the toolchain's `catch_unwind` intrinsic (reached from the `go` branch's JoinHandle drop glue)
+pub unsafe fn stub_catch_unwind<T>(try_fn: fn(*mut T), data: *mut T, _catch_fn: fn(*mut T, *mut u8)) -> bool { try_fn(data); false }
+/// thread signalling (Mutex + Condvar::notify_all = futex system call) is the environment, not the subject
+pub fn stub_latch_reset(_l: &crate::engine::util::sync::LockLatch) {}
+/// contract stub of the FEN reader for the start position (C06's subject): the start position, no history
+pub fn stub_from_fen(_fen: &str) -> Result<Game, String> { Ok(pos::game_of(&start_pos())) }
+fn start_pos() -> BPos {
+    let pcs = [[0xff00, 0x42, 0x24, 0x81, 0x08, 0x10],
+               [0xff00 << 40, 0x42 << 56, 0x24 << 56, 0x81 << 56, 0x08 << 56, 0x10 << 56]];
+    BPos { pcs, white_to_move: true, rights: [[true; 2]; 2], ep: 64 }
+}
+
+/// after `ucinewgame`, whatever game was held and whatever the tables contained, the engine holds the start position and tables equal
+/// to those of a freshly started engine (entries, generation, occupancy, history scores)
+#[kani::proof]
+#[kani::unwind(66)]
+#[kani::stub(std::intrinsics::catch_unwind, stub_catch_unwind)]
+#[kani::stub(crate::engine::util::sync::LockLatch::reset, stub_latch_reset)]
+#[kani::stub(crate::chess::game::Game::from_fen, stub_from_fen)]
+pub fn c12_ucinewgame_cmd() {
+    let n: usize = 3;
+    let mut data: Vec<Option<E>> = Vec::with_capacity(n);
+    let mut occ = 0;
+    let mut i = 0;
+    while i < n {
+        if kani::any() { data.push(Some(E { key: ZobristHash(kani::any()), data: any_data() })); occ += 1; } else { data.push(None); }
+        i += 1;
+    }
+    let tt = tta::from_parts(data, kani::any(), occ, 1);
+    // the held game: not the start position, arbitrary counters
+    let held_pos = two_kings();
+    let mut held = pos::game_of(&held_pos);
+    held.halfmove_clock = kani::any();
+    held.plies = kani::any();
+    #[cfg(test)] println!("REPLAY-CASE {{\"occupied\":{},\"held\":\"{}\"}}", occ, pos::fen_of(&held_pos));
+    let mut uci = ua::mk_uci(held);
+    // the session's tables are put in place (no by-value move of the 8192-cell history table): arbitrary transposition table, and
+    // one arbitrary history cell with an arbitrary score - which cell is symbolic, so every cell is covered
+    let (hp, hmv, hv): (bool, u16, i32) = (kani::any(), kani::any(), kani::any());
+    kani::assume(hmv != 0);
+    ua::with_state(&uci, |ps| {
+        let old = core::mem::replace(&mut ps.tt, tt);
+        core::mem::forget(old);
+        sa::tables::history_set(&mut ps.history_table, if hp { crate::chess::player::Player::White } else { crate::chess::player::Player::Black }, move_of(hmv), hv);
+    });
+    let ok = ua::execute_ok(&mut uci, &UciCommand::UciNewGame);
+    assert!(ok);
+    let g = ua::game(&uci);
+    assert!(pos::bpos_of_bitboards(g) == start_pos() && g.halfmove_clock == 0 && g.history.len() == 0);
+    let (p, a, b): (usize, usize, usize) = (kani::any(), kani::any(), kani::any());
+    kani::assume(p < 2 && a < 64 && b < 64);
+    let fresh = ua::with_state(&uci, |ps| {
+        let mut empty = ps.tt.occupied == 0 && ps.tt.generation == 0 && tta::len(&ps.tt) == 3;
+        let mut i = 0;
+        while i < 3 { empty = empty && tta::slot(&ps.tt, i).is_none(); i += 1; }
+        empty && sa::tables::history_cell(&ps.history_table, p, a, b) == 0
+    });
+    assert!(fresh);
+    kani::cover!(occ == 3);
+    std::mem::forget(uci);
+}
